@@ -59,8 +59,8 @@ pub fn gen_solver<VS: HSet>(sink: &mut Sink, prop: &str, thorough: bool, seed: u
         }
     }
     let _ = thorough;
-    for _ in 0..n_random {
-        let reg = random_registry::<VS>(&mut rng, &versions);
+    for i in 0..n_random {
+        let reg = if i % 3 == 2 { layered_registry::<VS>(&mut rng, &versions) } else { random_registry::<VS>(&mut rng, &versions) };
         let rvs = reg.versions("root");
         let rv = if rvs.is_empty() || rng.chance(1, 30) { 1 } else { rvs[rng.below(rvs.len() as u64) as usize] };
         let r = SolveReq { debug, root: "root".into(), rv, reg, strat: random_strat(&mut rng), fault: Fault::None };
@@ -142,8 +142,8 @@ pub fn gen_trees(sink: &mut Sink, prop: &str, thorough: bool, seed: u64, debug: 
         .into_iter()
         .map(|(r, root, rv)| (r, root.to_string(), rv, Strat::NewestFewest))
         .collect();
-    for _ in 0..n_cases {
-        let reg = random_registry::<Range<u32>>(&mut rng, &versions);
+    for i in 0..n_cases {
+        let reg = if i % 2 == 1 { layered_registry::<Range<u32>>(&mut rng, &versions) } else { random_registry::<Range<u32>>(&mut rng, &versions) };
         let rvs = reg.versions("root");
         let rv = if rvs.is_empty() { 1 } else { rvs[rng.below(rvs.len() as u64) as usize] };
         regs.push((reg, "root".into(), rv, random_strat(&mut rng)));
